@@ -12,6 +12,23 @@ class C03(hc.HashSpec):
 
 SPEC = C03()
 
+
+# ---- exports for the C16 aggregator (allocation failure never corrupts a container)
+class C16Hash(hc.HashSpec):
+    pid = 'C16'
+    prop = 'C16'
+
+    def oracle(self, case, impl):
+        return hc.oracle('C16', case, impl)
+
+
+def c16_base_cases(tier, seed):
+    return hc.c16_base_cases(tier, seed)
+
+
+def c16_spec():
+    return C16Hash()
+
 MANIFEST = dict(
     text='Coq theorems (Properties_C03.v) over an executable transcription of src/hash.c (HashModel.v): for every operation '
          'sequence, every in-range hash function and every allocator behaviour the table invariant hash_inv (A.1: clean buckets '
